@@ -91,7 +91,7 @@ def holdsOnT (i : InputT) (o : ObsT) : Bool :=
        -- normalisation is idempotent and independent of the input case
        conventional n == n && conventional (lowerAscii kv.1) == n && conventional (kv.1.map upperAsciiChar) == n &&
        (match nt.2 with
-        | .deps t raw => relationshipFields.contains (String.ofList n) && t == raw
+        | .deps t raw => relationshipFields.contains (String.ofList n) && Val.eqb t raw
         | .int k => n == "Installed-Size".toList &&
                     (match pyInt kv.2 with | .ok m => m == k | .error e => e == .outOfModel)
         | .raw s => !relationshipFields.contains (String.ofList n) && n != "Installed-Size".toList && s == kv.2))
